@@ -375,6 +375,20 @@ let sync j r msgs =
       with Reject why2 -> raise (Reject (why2 ^ " (with the old configuration: " ^ why1 ^ ")"))
     end
 
+(* a node in the torn-persist state is not compared with an abstract node, but what it regards as
+   committed must still be the committed log (direct check) *)
+let rec ldrop k l = if k <= 0 then l else match l with [] -> [] | _ :: r -> ldrop (k - 1) r
+let check_torn_commit j (r : nrec) =
+  let g = gcommit_of !st in
+  if r.commiti > List.length g then
+    raise (Reject (Printf.sprintf "node %d (restarted with entries above its persisted term) has commit index %d beyond the committed log (%d)" j r.commiti (List.length g)));
+  let rec go i ents gs =
+    if i > r.commiti then () else
+      match ents, gs with
+      | e :: er, x :: gr -> if e <> x then raise (Reject (Printf.sprintf "node %d (restarted with entries above its persisted term) holds at committed index %d an entry that differs from the committed one" j i)) else go (i + 1) er gr
+      | _, _ -> () in
+  go (r.snapii + 1) r.o.o_ents (ldrop r.snapii g)
+
 let check_match j (r : nrec) what =
   incr n_matches;
   if not (match_node (node j) r.o) then
@@ -571,7 +585,10 @@ let handle_event (e : ev) =
               (match Hashtbl.find_opt pend_app j with Some q -> Queue.clear q | None -> ());
               if r.appapplied < a then do_ (L_AppRestart (nat j, nat r.appapplied))
             end;
-            if was_torn && (r.o.o_role <> Follower || int_ (obs_lastterm r.o) > r.term) then bump skipped "torn_persist_node_observations"
+            if was_torn && (r.o.o_role <> Follower || int_ (obs_lastterm r.o) > r.term) then begin
+              bump skipped "torn_persist_node_observations";
+              check_torn_commit j r
+            end
             else begin
               (try restart j r; Hashtbl.remove torn j; check_match j r "restart";
                  if r.sendpending then Hashtbl.replace dirty j true
